@@ -81,7 +81,7 @@ def generate(master, index, tier):
         "rawbuf": rng.choice((1, 2, 8, 64, 8192)),
         "items": items,
         "driver": rng.choice(("iterate", "iterate", "read")),
-        "opts": {"quitonerror": q, "parsed": True, "labelmsm": rng.choice((1, 2)), "handler": mode in ("log+handler", "ignore") or (mode == "raise" and rng.random() < 0.5)},
+        "opts": {"quitonerror": q, "parsed": True, "labelmsm": rng.choice((1, 2)), "handler": rng.choice(W.HANDLER_KINDS) if (mode in ("log+handler", "ignore") or (mode == "raise" and rng.random() < 0.5)) else False},
         "sched": {"seed": rng.getrandbits(48), "seg": rng.choice(("full", "byte", "small", "random", "mixed"))},
     }
 
